@@ -44,6 +44,8 @@ func newPair(t *testing.T, kind string, extraNames ...string) (*pair, error) {
 		for _, n := range extraNames {
 			ps[n] = &vp.NetP{Name: n, Label: "inproc", Core: p.core}
 		}
+		// a plugin whose Server() takes a while and then fails
+		ps["bad"] = &vp.NetP{Name: "bad", Label: "inproc", Core: p.core, FailAfter: 15 * time.Millisecond}
 		c, _ := plugin.TestPluginRPCConn(t, ps, nil)
 		p.rpcClient = c
 		raw, err := c.Dispense("kv")
